@@ -22,6 +22,9 @@ pub mod shims {
     pub uninterp spec fn f_ok(kind: int) -> bool;
     pub uninterp spec fn f_result(kind: int) -> std::io::Result<()>;
     pub uninterp spec fn s_ok(kind: int) -> bool;
+    /// token fact ("happened before"): only the ensures of a flush call can establish it, shutdown requires it.
+    /// C04 anchor "PrimaryWriter::shutdown flushes first".
+    pub uninterp spec fn flush_done(kind: int) -> bool;
     pub uninterp spec fn elf_result(sel: &LogfileSelector) -> Result<Vec<PathBuf>, FlexiLoggerError>;
     macro_rules! writer_shim {
         ($name:ident, $kind:expr) => {
@@ -38,12 +41,13 @@ pub mod shims {
                 pub fn flush(&self) -> (r: std::io::Result<()>)
                     requires
                         f_ok($kind), //@label KindWriter::flush.perm C04
-                    ensures r == f_result($kind),
+                    ensures r == f_result($kind), flush_done($kind),
                 { unimplemented!() }
                 #[verifier::external_body]
                 pub fn shutdown(&self)
                     requires
                         s_ok($kind), //@label KindWriter::shutdown.perm C04
+                        flush_done($kind), //@label KindWriter::shutdown.flushed_first C04
                 { unimplemented!() }
             }
             }
@@ -78,6 +82,7 @@ pub mod primary_writer {
     //@   props C04
     //@   req[PrimaryWriter::flush.pre.perm] forall|k: int| #[trigger] f_ok(k) <==> k == self.kind()
     //@   ens[PrimaryWriter::flush.post.handed_over] r == f_result(self.kind())
+    //@   ens[PrimaryWriter::flush.post.token] flush_done(self.kind())
     //@   canary
     //@ fn src/primary_writer.rs impl PrimaryWriter / fn shutdown
     //@   props C04
